@@ -828,7 +828,6 @@ func (e *Enc) permFacts(orig, fin, n string) string {
 	return pi
 }
 
-
 // matchLess recognises the closure shape  func(i, j int) bool { return s[i].F OP s[j].F }  (OP in <, >)
 // and returns the struct type, field index and whether the order is ascending.
 func matchLess(fn *ssa.Function) (types.Type, int, bool, bool) {
